@@ -6,7 +6,8 @@ import convlib
 
 KEYS = {"String": "KString", "syn::Ident": "KIdent", "syn::Path": "KPath"}
 VALS = ["bool", "u8", "String", "syn::Expr", "HashMap<String,u8>", "BTreeMap<String,String>"]
-KEYNAMES = ["a", "b", "c", "key", "a::b", "a::c", "::a", "r#type", "a::<T>", "k1", "k2", "self"]
+# (`r#k1` and `k1` are one String key but two paths / identifiers; `::a` and `a` are two keys of every kind)
+KEYNAMES = ["a", "b", "c", "key", "a::b", "a::c", "::a", "r#type", "a::<T>", "k1", "k2", "self", "r#k1", "r#a", "type"]
 GOOD = {"bool": ["", " = true", " = false", ' = "true"'], "u8": [" = 1", " = 255", ' = "7"', " = 0x10"],
         "String": [' = "v"', ' = ""', ' = "w x"'], "syn::Expr": [" = a + b", " = 1", ' = "f(x)"', " = [1, 2]", " = -1", " = -2.5"],
         "HashMap<String,u8>": ["(x = 1)", "(x = 1, y = 2)", "()"], "BTreeMap<String,String>": ['(x = "1")', "()"]}
